@@ -123,8 +123,19 @@ def r2_copy_completeness(R) -> None:
         for (n, dc) in fills:
             g = dc.generators[0]
             kv = [x.id for x in ast.walk(g.target) if isinstance(x, ast.Name)]
-            ok = len(dc.generators) == 1 and text(g.iter) == 'self.__dict__.items()' and len(kv) == 2 and text(dc.key) == kv[0] and is_call(dc.value, 'copy.deepcopy') \
-                and text(dc.value.args[0]) == kv[1]
+            # every arm of the value is a deep copy of the entry - or a NumPy `.copy()` taken only where the array is known
+            # to hold no Python objects (an object array's `.copy()` shares its elements, e.g. the per-period Trace objects)
+            from fsa.gated import canon, leaves
+            arms_ok = True
+            for (facts, leaf) in leaves(canon(dc.value)):
+                if is_call(leaf, 'copy.deepcopy') and len(kv) == 2 and text(leaf.args[0]) == kv[1]:
+                    continue
+                if method_call(leaf, 'copy') and len(kv) == 2 and text(leaf.func.value) == kv[1] and not leaf.args \
+                        and any(text(a_) == f'{kv[1]}.dtype.hasobject' and not tr_ for (a_, tr_) in facts) \
+                        and any(text(a_) in (f'type({kv[1]}) is np.ndarray', f'isinstance({kv[1]}, np.ndarray)') and tr_ for (a_, tr_) in facts):
+                    continue
+                arms_ok = False
+            ok = len(dc.generators) == 1 and text(g.iter) == 'self.__dict__.items()' and len(kv) == 2 and text(dc.key) == kv[0] and arms_ok
             R.check(ok, q, 'deepcopy-all:' + text(dc)[:80], 'every entry of __dict__ is deep-copied into the copy',
                     f'`{text(dc)[:90]}` stores an entry by reference (no copy.deepcopy of the value; a shallow `.copy()` shares the elements of object arrays such as '
                     f'per-period Trace objects)', where=f.where(n))
